@@ -249,3 +249,113 @@ func sharedFlushCases(prop, tier string) []core.Case {
 	}
 	return cases
 }
+
+// c08TagAfterVersion: a tag still carried by a request of the previous session (aborted by a Tversion, but still
+// executing) is used again in the new session by two requests: they run one at a time in arrival order, whenever the
+// old request gets round to finishing.
+func c08TagAfterVersion(ctx *core.Ctx, maxpend int, releaseOldFirst bool) core.Result {
+	var res core.Result
+	s, e, _, ok := c08setup(Config{Dotu: true, Msize: 8192, Maxpend: maxpend})
+	if !ok {
+		res.Inconclusive = "c08: setup failed"
+		return res
+	}
+	c := e.c
+	defer c.Hangup()
+	f := uint32(60)
+	if !e.ok(&wire.Msg{Type: wire.Twalk, Fid: e.root, Newfid: f, Wname: []string{"f"}}) || !e.ok(&wire.Msg{Type: wire.Topen, Fid: f, Mode: 2}) {
+		res.Inconclusive = "c08: fid setup failed"
+		return res
+	}
+	for rep := 0; rep < 4 && len(res.Violations) == 0; rep++ {
+		ctx.Beat()
+		tag := e.next()
+		seq0 := s.Log.Seq()
+		det := map[string]interface{}{"maxpend": maxpend, "old_released_first": releaseOldFirst, "rep": rep, "tag": tag}
+		mk := func(i int) (*wire.Msg, *script.Plan) {
+			m := &wire.Msg{Type: wire.Tread, Tag: tag, Fid: f, Offset: uint64(1000*rep + i), Count: uint32(8 + i)}
+			p := script.NewPlan()
+			p.Gate, p.Entered = make(chan struct{}), make(chan struct{})
+			s.Ops.SetPlan(c.ID, tag, p)
+			return m, p
+		}
+		a, pa := mk(0)
+		_ = c.Send(a)
+		select {
+		case <-pa.Entered:
+		case <-time.After(W):
+			res.Inconclusive = "c08: request of the old session never started"
+			return res
+		}
+		if r, err := c.Version(8192, "9P2000.u", W); err != nil || r.Msg == nil || r.Msg.Type != wire.Rversion {
+			res.Inconclusive = "c08: second Tversion not answered"
+			close(pa.Gate)
+			return res
+		}
+		res.Evals++
+		b, pb := mk(1)
+		cm, pc := mk(2)
+		close(pc.Gate) // the third is never held by the harness
+		_ = c.Send(b)
+		if releaseOldFirst {
+			close(pa.Gate)
+		}
+		entered := func(p *script.Plan, d time.Duration) bool {
+			select {
+			case <-p.Entered:
+				return true
+			case <-time.After(d):
+				return false
+			}
+		}
+		bStarted := entered(pb, 300*time.Millisecond)
+		if !bStarted && !releaseOldFirst {
+			// queued behind the old request: it starts once that one is through
+			close(pa.Gate)
+			bStarted = entered(pb, W)
+		} else if !releaseOldFirst {
+			close(pa.Gate)
+			time.Sleep(3 * time.Millisecond) // the old request finishes while the new one executes
+		}
+		if !bStarted {
+			res.Violate("C08;tag-after-version;never-started", "a request of the new session under a tag the old session still used was never executed", det)
+			close(pb.Gate)
+			return res
+		}
+		_ = c.Send(cm)
+		time.Sleep(5 * time.Millisecond)
+		for _, ev := range s.Log.Snapshot(seq0) {
+			if ev.Conn == c.ID && ev.Kind == "op" && ev.Tag == tag && ev.Args == fmt.Sprintf("offset=%d count=%d", cm.Offset, cm.Count) {
+				res.Violate("C08;tag-after-version;not-serial", "after a Tversion, a request was started while an earlier request with the same tag was still executing", det)
+			}
+		}
+		close(pb.Gate)
+		var got []*Reply
+		for len(got) < 2 {
+			rp, err := c.WaitTag(tag, W)
+			if err != nil || rp.Msg == nil {
+				res.Violate("C08;tag-after-version;reply-missing", fmt.Sprintf("%d of 2 replies for the two requests of the new session", len(got)), det)
+				return res
+			}
+			got = append(got, rp)
+		}
+		c.Quiesce(W)
+		var tok int64
+		for _, ev := range s.Log.Snapshot(seq0) {
+			if ev.Conn == c.ID && ev.Kind == "op" && ev.Tag == tag {
+				tok = ev.Fid
+			}
+		}
+		for i, m := range []*wire.Msg{b, cm} {
+			if got[i].Msg.Type != wire.Rread || !bytes.Equal(got[i].Msg.Data, script.Pattern(tag, tok, m.Offset, int(m.Count))) {
+				res.Violate("C08;tag-after-version;reply-order", fmt.Sprintf("reply %d under the reused tag is not the answer to request %d of the new session", i, i), det)
+				break
+			}
+		}
+		if rp, err := c.WaitTag(tag, 20*time.Millisecond); err == nil && rp != nil && rp.Msg != nil {
+			res.Violate("C08;tag-after-version;extra-reply", "a third reply under the tag (the aborted request of the old session was answered)", det)
+		}
+		res.Sig(fmt.Sprintf("tag-after-version|mp=%d|oldfirst=%v|queued=%v", maxpend, releaseOldFirst, !bStarted))
+	}
+	return res
+}
